@@ -133,9 +133,10 @@ func bodyTransports(r *sim.Run) {
 		r.Logf("network: 203.0.113.127 refuses connections")
 	}
 	if t.Chance(300) {
-		// a listener that comes up just too late for the first attempt: the
-		// client's one retry (with a fresh resolution) must reach it, under
-		// the same Host and TLS name
+		// a listener that comes up just too late for the first attempt: if the
+		// client tries again (the library does, once, with a fresh resolution)
+		// it must get there under the same Host and TLS name; if it gives up,
+		// that is a failed round trip after a fault, nothing more
 		w.n.setState(netip.MustParseAddr("203.0.113.7"), ipRefusedOnce)
 		r.Logf("network: 203.0.113.7 refuses the first connection attempt")
 	}
@@ -395,6 +396,9 @@ func (w *rtWorld) roundTrip(ts *rtTask, i int, dest string) {
 			faulted = true
 			r.Fault("timeout")
 		case "refused":
+			// a round trip that met a refused connection may fail: whether the
+			// client tries again is its own business, not the property's
+			faulted = true
 			r.Fault("conn_refused")
 		}
 	}
